@@ -2,6 +2,6 @@
 SPECIFICATION Spec
 CONSTANTS MaxOps = 4  Tries = 3
   MFields <- MFieldsAll  SeedSet <- SeedsTwo  DigestAtoms = {1, 2}  NonceSet <- NoncesTwo
-  Counts = {0, 1, 4}  Sizes = {2, 8}  Degs = {1, 2, 3}
+  Counts = {0, 1, 4}  Sizes <- SizesThorough  Degs = {1, 2, 3}
 INVARIANT Deterministic Sensitive Fresh Promised CounterOK
 CHECK_DEADLOCK FALSE
